@@ -7,8 +7,20 @@ From V Require Import Base.Bytes Base.Res Gen.Tables Model.Escape Spec.EscapeSpe
 Extraction Language OCaml.
 Set Extraction KeepSingleton.
 
+(* one name per line; components append theirs *)
 Extraction "model.ml"
-  Byte.to_N Byte.of_N Bytes.byte_of_N
-  Escape.escape Escape.escape_href Escape.write_opening_tag
-  EscapeSpec.escape_spec EscapeSpec.escape_href_spec EscapeSpec.html_unescape EscapeSpec.href_wf
-  EscapeSpec.href_decode EscapeSpec.no_pct_hex EscapeSpec.lex_start_tag EscapeSpec.utf8_valid.
+  Byte.to_N
+  Byte.of_N
+  Bytes.byte_of_N
+  Escape.escape
+  Escape.escape_href
+  Escape.write_opening_tag
+  EscapeSpec.escape_spec
+  EscapeSpec.escape_href_spec
+  EscapeSpec.html_unescape
+  EscapeSpec.href_wf
+  EscapeSpec.href_decode
+  EscapeSpec.no_pct_hex
+  EscapeSpec.lex_start_tag
+  EscapeSpec.utf8_valid
+.
